@@ -1,15 +1,16 @@
 #!/bin/bash
-# Copies the contract files (comment-only, //go:build verif) from /verif/contracts/mirror into /repo
+# Copies the contract files (comment-only) and the verif-tagged hook files (zz_hooks_verif.go: round-trip
+# compositions for C14), all //go:build verif, from /verif/contracts/mirror into /repo
 # and commits them there as a hook commit. Prints the commit id (if any).
 set -e
 cd /verif/contracts/mirror
 changed=0
-for f in $(find . -name zz_contracts_verif.go); do
+for f in $(find . -name 'zz_*_verif.go'); do
   dst=/repo/rolling-shutter/$f
   if ! cmp -s "$f" "$dst"; then
     mkdir -p "$(dirname "$dst")"; cp "$f" "$dst"; git -C /repo add "rolling-shutter/$f"; changed=1
   fi
 done
 if [ $changed = 1 ]; then
-  git -C /repo commit -qm "verif hook: contract comments (build tag verif, comment-only files)" && git -C /repo rev-parse --short HEAD
+  git -C /repo commit -qm "verif hook: contract comments and verifier-only round-trip hooks (all files //go:build verif)" && git -C /repo rev-parse --short HEAD
 fi
